@@ -25,7 +25,7 @@ def generate(chk, op, maxnodes, simulate=None, depth=None, label=None):
     if r.rc != 0:
         raise tlc.TLCError("GqlSched invariant violated: %s\n%s" % (r.violated, r.tail))
     if not simulate:
-        tlc.require_coverage(r, ["AddNode", "Begin", "CompleteAny"])
+        tlc.require_coverage(r, ["AddNode", "Seal", "Begin", "CompleteAny"])
     seen = set()
     out = []
     for b in r.tagged("RUN"):
@@ -154,7 +154,7 @@ def decorate(behs, rng):
         b["_variant"] = {"wrap": rng.choice(["none", "none", "inline", "inline-untyped", "spread", "split"]),
                          "dup": rng.random() < 0.25, "style": rng.choice(["resolver", "resolver", "method"]),
                          "err": rng.choice(["fresh", "shared", "subclass", "proxy", "completion", "empty"]), "crash": rng.choice(["runtime", "runtime", "located", "index"]),
-                         "root": rng.choice(["separate", "separate", "shared"])}
+                         "root": rng.choice(["separate", "separate", "shared"]), "dirs": rng.random() < 0.3}
     return behs
 
 
@@ -167,9 +167,10 @@ def run(chk, op=OP):
     chk.count("behaviours<=3 (exhaustive)", len(behs))
     if chk.quick:
         small = [b for b in behs if len(b["nodes"]) <= 2]
-        big = [b for b in behs if len(b["nodes"]) == 3]
+        big = [b for b in behs if len(b["nodes"]) >= 3]        # (a list-of-objects plan of 3 nodes unfolds to up to 5 field instances)
         rng.shuffle(big)
-        behs = small + big[:3500]
+        lob = [b for b in big if any(x["out"] == "lobj" for x in b["nodes"])]
+        behs = small + big[:3500] + lob[:1500]
         chk.exhaustive = False
         sim = generate(chk, op, 5, simulate=4000, depth=24, label="GqlSched -simulate nodes<=5")
         sim = [b for b in sim if len(b["nodes"]) >= 4][:1500]
@@ -186,6 +187,7 @@ def run(chk, op=OP):
         chk.count("behaviours 5-6 nodes (simulated)", len(sim))
         behs += extra + sim
     chk.count("behaviours replayed", len(behs))
+    chk.count("behaviours with a list of two objects (sub-selection instances per item)", sum(1 for b in behs if any(x["out"] == "lobj" for x in b["nodes"])))
     decorate(behs, rng)
     replay(chk, behs)
     real_stage(chk, behs, rng, 400 if chk.quick else 4000)
